@@ -240,7 +240,18 @@ class SStr:
     def __ne__(self, o):
         return s_not(self._eq(o))
 
-    __hash__ = object.__hash__
+    def __hash__(self):
+        # consistent with ==: fully concrete texts hash like the str they equal; texts with symbolic characters all hash alike, so
+        # that set / dict look-ups among them are decided by == (which forks).  A look-up of a symbolic text against *concrete* str
+        # keys of the same container is not modelled: the path set is marked inconclusive (the unchanged library never hashes these).
+        if all(isinstance(i, str) for i in self.items):
+            return hash("".join(self.items))
+        if core.CTX is not None:
+            note = ("a text handle with symbolic characters was hashed (set/dict key): compared by equality with other handles only; "
+                    "look-ups against concrete str keys of the same container are not modelled")
+            if note not in core.CTX.inconclusive:
+                core.CTX.inconclusive.append(note)
+        return 0x5159
 
     def split(self, sep):
         out, cur = [], []
@@ -383,7 +394,8 @@ class B64Text:
     def __eq__(self, o):
         return isinstance(o, B64Text) and (len(o.b) == len(self.b)) and (o.b == self.b)
 
-    __hash__ = object.__hash__
+    def __hash__(self):
+        return hash(("b64", self.b))
 
     def __repr__(self):
         return "<base64 text>"
@@ -1524,6 +1536,16 @@ def _recv(fn, *a, **k):
     return "ok", r
 
 
+def _warm(bc, *partlists, pairs=()):
+    """history: the genuine payload(s) were received earlier in the same process (module / class level state of the library
+    persists); outcomes are ignored"""
+    for parts in partlists:
+        _recv(bc.BCURMulti.parse, list(parts))
+    for enc, h in pairs:
+        _recv(bc.bcur_decode, enc, h)
+        _recv(bc.bcur_decode, enc)
+
+
 def _single_path(n, use_checksum):
     be, bc = mods()
     use_polymod("fold")
@@ -1579,18 +1601,20 @@ def ob_bcur_roundtrip(n):
     return m
 
 
-def _arrange_path(n, y, seq):
+def _arrange_path(n, y, seq, warm=False):
     be, bc = mods()
     use_polymod("fold")
     d = SBytes.sym("d", n) if n else SBytes.sym("d", 0)
     d = norm(d)
     L = _text_len(n)
     s = _chunk_size_for(L, y)
-    wit = lambda env: {"scenario": "arrange", "d": bytes_env(env, "d", n).hex(), "s": s, "seq": list(seq)}  # noqa
+    wit = lambda env: {"scenario": "arrange", "d": bytes_env(env, "d", n).hex(), "s": s, "seq": list(seq), "warm": warm}  # noqa
     obj, parts = _send_multi(bc, d, s)
     if len(parts) != y:
         check(False, "number of parts", witness=wit)
         return "bad-parts"
+    if warm:
+        _warm(bc, parts, pairs=[(obj.encoded, obj.enc_hash)])
     got = [parts[i] for i in seq]
     st, back = _recv(bc.BCURMulti.parse, got)
     legit = list(seq) == list(range(y))
@@ -1609,12 +1633,12 @@ def _arrange_path(n, y, seq):
     return "ok"
 
 
-def ob_bcur_arrange(n, y):
+def ob_bcur_arrange(n, y, warm=False):
     import itertools
     runs = []
     seqs = [q for k in range(0, y + 1) for q in itertools.product(range(y), repeat=k)]
     for seq in seqs:
-        runs.append(sym_run(lambda: _arrange_path(n, y, seq), timeout_ms=60000, min_checks=0))
+        runs.append(sym_run(lambda: _arrange_path(n, y, seq, warm), timeout_ms=60000, min_checks=0))
     m = merge_runs(runs)
     m["sample"] = {"payload": f"{n} symbolic bytes", "parts": y, "sequences": len(seqs), "example": "[0, 2, 1]"}
     if "'ok'" not in m["classes"] or "'rejected'" not in m["classes"]:
@@ -1623,7 +1647,7 @@ def ob_bcur_arrange(n, y):
     return m
 
 
-def _headers_path(n, y):
+def _headers_path(n, y, warm=False):
     be, bc = mods()
     use_polymod("fold")
     d = norm(SBytes.sym("d", n))
@@ -1636,10 +1660,12 @@ def _headers_path(n, y):
     cs = [SStr.sym(f"c{i}", 58) for i in range(y)]
 
     def wit(env):
-        return {"scenario": "headers", "d": bytes_env(env, "d", n).hex(), "s": s,
+        return {"scenario": "headers", "d": bytes_env(env, "d", n).hex(), "s": s, "warm": warm,
                 "hdr": [[env[f"x{i}"], env[f"y{i}"],
                          "GENUINE" if _model_true(cs[i] == obj.enc_hash) else _text_of(env, f"c{i}", 58, cased=False)] for i in range(y)]}
     got = [Part(legit[i][0], cs[i], xs[i], ys[i]) for i in range(y)]
+    if warm:
+        _warm(bc, parts, pairs=[(obj.encoded, obj.enc_hash)])
     st, back = _recv(bc.BCURMulti.parse, got)
     inorder = s_and(*[xs[i] == i + 1 for i in range(y)])
     same_c = s_and(*[cs[i] == cs[0] for i in range(1, y)]) if y > 1 else True
@@ -1657,22 +1683,24 @@ def _headers_path(n, y):
     return "rejected"
 
 
-def ob_bcur_headers(n, y):
-    r = sym_run(lambda: _headers_path(n, y), timeout_ms=60000, expect_classes=["ok", "rejected"])
+def ob_bcur_headers(n, y, warm=False):
+    r = sym_run(lambda: _headers_path(n, y, warm), timeout_ms=60000, expect_classes=["ok", "rejected"])
     r["sample"] = {"payload": f"{n} symbolic bytes", "parts": y, "x_i, y_i": "symbolic in [0,5]", "checksum_i": "58 symbolic bech32 characters each"}
     return r
 
 
-def _foreign_path(n, y, j):
+def _foreign_path(n, y, j, warm=False):
     be, bc = mods()
     use_polymod("fold")
     d = norm(SBytes.sym("d", n))
     e = norm(SBytes.sym("e", n))
     L = _text_len(n)
     s = _chunk_size_for(L, y)
-    wit = lambda env: {"scenario": "foreign", "d": bytes_env(env, "d", n).hex(), "d2": bytes_env(env, "e", n).hex(), "s": s, "j": j}  # noqa
+    wit = lambda env: {"scenario": "foreign", "d": bytes_env(env, "d", n).hex(), "d2": bytes_env(env, "e", n).hex(), "s": s, "j": j, "warm": warm}  # noqa
     _, parts = _send_multi(bc, d, s)
     _, parts2 = _send_multi(bc, e, s)
+    if warm:
+        _warm(bc, parts, parts2)
     got = list(parts)
     got[j] = parts2[j]
     st, back = _recv(bc.BCURMulti.parse, got)
@@ -1688,8 +1716,8 @@ def _foreign_path(n, y, j):
     return "ok"
 
 
-def ob_bcur_foreign(n, y):
-    runs = [sym_run(lambda: _foreign_path(n, y, j), timeout_ms=60000) for j in range(y)]
+def ob_bcur_foreign(n, y, warm=False):
+    runs = [sym_run(lambda: _foreign_path(n, y, j, warm), timeout_ms=60000) for j in range(y)]
     m = merge_runs(runs)
     m["sample"] = {"payloads": f"two symbolic {n}-byte payloads", "parts": y, "swapped": "each position in turn"}
     if "'ok'" not in m["classes"] or "'rejected'" not in m["classes"]:
@@ -1697,7 +1725,7 @@ def ob_bcur_foreign(n, y):
     return m
 
 
-def _tamper_path(n, dl):
+def _tamper_path(n, dl, warm=False):
     be, bc = mods()
     use_polymod("fold")
     d = norm(SBytes.sym("d", n))
@@ -1706,7 +1734,10 @@ def _tamper_path(n, dl):
     P = SStr.sym("p", L + dl)
     def wit(env):
         ok = _model_true(be.bech32_polymod([0] + [c.sym for c in P.items]) == BC32_CONST)
-        return {"scenario": "tamper", "d": bytes_env(env, "d", n).hex(), "payload": _text_of(env, "p", L + dl, cased=False), "chk_valid": ok}
+        return {"scenario": "tamper", "d": bytes_env(env, "d", n).hex(), "payload": _text_of(env, "p", L + dl, cased=False), "chk_valid": ok,
+                "warm": warm}
+    if warm:
+        _warm(bc, pairs=[(enc, enc_hash)])
     st, r = _recv(bc.bcur_decode, P, enc_hash)
     if st != "ok":
         check(True, "rejected")
@@ -1714,11 +1745,15 @@ def _tamper_path(n, dl):
     body, _ = spec_5to8([c.sym for c in P.items][:-6])
     inj = _inj(spec_cbor(d), norm(SBytes(body))) if body is not None else True
     check(s_implies(inj, _bytes_eq(r, d)), "a payload text that does not match the digest is accepted and yields different data", witness=wit)
+    # ... and what was accepted IS an encoding of the payload the digest commits to (a corrupted text is refused, not silently
+    # mapped to the data seen earlier)
+    check(body is not None and s_implies(inj, _bytes_eq(norm(SBytes(body)), spec_cbor(d))),
+          "a payload text whose bytes are not the CBOR item the digest commits to is accepted", witness=wit)
     return "ok"
 
 
-def ob_bcur_tamper(n):
-    runs = [sym_run(lambda: _tamper_path(n, dl), timeout_ms=60000) for dl in (0, -1, 1)]
+def ob_bcur_tamper(n, warm=False):
+    runs = [sym_run(lambda: _tamper_path(n, dl, warm), timeout_ms=60000) for dl in (0, -1, 1)]
     m = merge_runs(runs)
     m["sample"] = {"payload": f"{n} symbolic bytes", "received text": "every string of bech32 characters of the genuine length and +-1, genuine digest"}
     if "'ok'" not in m["classes"] or "'rejected'" not in m["classes"]:
@@ -1758,13 +1793,29 @@ def replay_bcur(w):
         return {"violated": bad, "observed": f"single {len(d)} bytes: text {text[:60]}..., parse -> {err or 'ok'}, bcur_decode -> {e1 or r1 == d}/{e2 or r2 == d}"}
     if sc == "tamper":
         enc, enc_hash = bcur.bcur_encode(d)
+        if w.get("warm"):
+            attempt(bcur.bcur_decode, enc, enc_hash)
+            attempt(bcur.bcur_decode, enc)
         if w.get("chk_valid") and len(w["payload"]) >= 6:
             w["payload"] = w["payload"][:-6] + _real_checksum(w["payload"][:-6])
         r, err = attempt(bcur.bcur_decode, w["payload"], enc_hash)
+        if r is not None and r == d:
+            # accepted with the right data: the text itself must decode (independent regrouping) to the CBOR item of the payload
+            syms = [ALPHA.find(c) for c in w["payload"].lower()]
+            body = spec_5to8(syms[:-6])[0] if len(syms) >= 6 and min(syms) >= 0 else None
+            if body is None or bytes(body) != bytes(spec_cbor(d)):
+                return {"violated": True, "observed": f"bcur_decode({w['payload']!r}, genuine digest) returns the payload {d.hex()} although the text "
+                                                      f"is not an encoding of it (genuine text {enc!r})" + (" after the genuine text was decoded once" if w.get("warm") else "")}
         return {"violated": r is not None and r != d, "observed": f"bcur_decode({w['payload']!r}, genuine digest) -> {err or r.hex()} (payload {d.hex()})"}
     obj = bcur.BCURMulti(text_b64=b64)
     parts = obj.encode(max_size_per_chunk=w["s"], animate=w.get("animate", True))
     y = len(parts)
+    if w.get("warm"):
+        attempt(bcur.BCURMulti.parse, list(parts))
+        attempt(bcur.bcur_decode, obj.encoded, obj.enc_hash)
+        attempt(bcur.bcur_decode, obj.encoded)
+        if sc == "foreign":
+            attempt(bcur.BCURMulti.parse, bcur.BCURMulti(text_b64=b64encode(bytes.fromhex(w["d2"])).decode()).encode(max_size_per_chunk=w["s"]))
     if sc == "multi":
         cw = replay_chunking({"L": len(obj.encoded), "s": w["s"], "animate": w.get("animate", True)})
         back, err = attempt(bcur.BCURMulti.parse, parts)
@@ -1892,6 +1943,15 @@ def obligations(tier):
         obs.append(Ob("O3-bcur-foreign", ob_bcur_foreign, {"n": n, "y": y}, replay="bcur", budget_s=1700))
     for n in ([0, 1, 5, 23, 24] if q else [0, 1, 5, 23, 24, 40, 64]):
         obs.append(Ob("O3-bcur-tamper", ob_bcur_tamper, {"n": n}, replay="bcur", budget_s=1700))
+    # ---- O3 history: the same attacks after the genuine payload has been received once in the same process
+    for n, y in ([(5, 2), (24, 2)] if q else [(0, 2), (5, 3), (24, 2), (40, 3)]):
+        obs.append(Ob("O3-history-arrange", ob_bcur_arrange, {"n": n, "y": y, "warm": True}, replay="bcur", budget_s=1700))
+    for n, y in ([(5, 2), (24, 3)] if q else [(0, 1), (5, 2), (24, 3), (40, 2)]):
+        obs.append(Ob("O3-history-headers", ob_bcur_headers, {"n": n, "y": y, "warm": True}, replay="bcur", budget_s=1700))
+    for n, y in ([(5, 2)] if q else [(1, 2), (5, 2), (24, 3)]):
+        obs.append(Ob("O3-history-foreign", ob_bcur_foreign, {"n": n, "y": y, "warm": True}, replay="bcur", budget_s=1700))
+    for n in ([1, 24] if q else [0, 1, 5, 23, 24]):
+        obs.append(Ob("O3-history-tamper", ob_bcur_tamper, {"n": n, "warm": True}, replay="bcur", budget_s=1700))
     if not q:
         obs.append(Ob("FP-ceil-lemma", ob_fp_lemma, {"abits": 12, "bbits": 8, "timeout_s": 1200}, replay="fp", budget_s=1500))
     return obs
